@@ -59,7 +59,7 @@ import sys
 import time
 from typing import Any, Dict, List, Optional, Tuple
 
-from harness.lib import coqbuild, ostrace, powerloss, c16_driver, c16_worker
+from harness.lib import coqbuild, ostrace, powerloss, c16_driver, c16_worker, c16_sizes
 
 LEVEL = "proof"
 THEOREMS = ["C16_durable_prefix", "C16_acked_durable", "C16_each_publish", "C16_publish_data_same", "C16_disciplined_safe"]
@@ -399,6 +399,27 @@ def oracle_case(ctx, case: Case, nsched: int, expect_violation: bool = False) ->
     for a in ack_check(case):
         viol.append({"prefix": a["prefix"], "outcome": "drop_all", "problems": [dict(a, problem="acknowledged commit not durable")]})
     return viol
+
+
+def tail_check(ctx, case: Case, already: bool) -> None:
+    """The durable-prefix rule read directly off the raw trace (c16_sizes.unsynced_tails): a file that is renamed into
+    place must have been fsynced after the LAST write it received.  Cross-check of the prefix evaluator: a trace that
+    breaks the rule for a file some version references, while the evaluator found no crash state showing the torn
+    file, is reported on its own."""
+    locks = os.path.join(case.root, ".locks") + os.sep
+    bad = c16_sizes.unsynced_tails([ev for ev in case.raw if not str(ev.get("path", "")).startswith(locks)])
+    ctx.count(1)
+    if not bad or already:
+        return
+    b = bad[0]
+    rel = os.path.relpath(b["to"], case.root)
+    ctx.violation(f"unsynced-tail:{powerloss.kind_of(rel)}",
+                  f"{rel} was renamed into place with {b['bytes_written'] - b['bytes_synced']} of its {b['bytes_written']} bytes written "
+                  f"after its last fsync ({'no fsync at all' if b['last_fsync_index'] is None else 'fsync at raw call #%d' % b['last_fsync_index']}, "
+                  f"last write at #{b['last_write_index']}, rename at #{b['rename_index']}) and the crash-state enumeration did NOT find the torn "
+                  f"file -- scenario {case.steps}, tracer {case.mode}",
+                  {"steps": case.steps, "mode": case.mode, "mutation": getattr(case, "mutation", None), "fault": case.fault,
+                   "unsynced_tail": {k: (os.path.relpath(v, case.root) if k in ("from", "to") else v) for k, v in b.items()}})
 
 
 def shrink_steps(ctx, steps: List[Any], mode: str, mutation: Optional[str], still_fails) -> List[Any]:
@@ -799,11 +820,31 @@ def run(ctx) -> None:
     scases = make_cases(ctx, [{"steps": s, "mode": "strace"} for s in strace_scen])
     ctx.stats["strace_scenarios"] = len(scases)
     ctx.stats["strace_run_s"] = round(time.time() - t0, 1)
-    for c in cases + scases:
+    # ---- data sizes: row counts k*c - 1, k*c, k*c + 1 for every integer literal c of the writer modules, through every
+    #      public write path (c16_sizes); the exact multiples also under strace (arrow's own write(2) calls)
+    t0 = time.time()
+    consts = c16_sizes.harvest_constants(coqbuild.REPO)
+    sized_m, sized_o, sstats = c16_sizes.sized_scenarios(list(consts), 250_000 if quick else 400_000, 2 if quick else 3,
+                                                         every_path=not quick)
+    sstats["constant_sites"] = {str(c): v[:3] for c, v in consts.items()}
+    sized_cases = make_cases(ctx, [{"steps": s, "mode": "inproc"} for s in sized_m])
+    pre_cases = make_cases(ctx, [{"steps": s, "mode": "inproc"} for s in sized_o])
+    rows_of = lambda steps: max([st[1] for st in steps if len(st) > 1 and isinstance(st[1], int)] + [0])   # noqa: E731
+    by_rows = sorted(sized_m, key=rows_of)
+    sized_strace = by_rows[-1:] if quick else by_rows[-4:]
+    sized_scases = make_cases(ctx, [{"steps": s, "mode": "strace"} for s in sized_strace])
+    sstats["strace_scenarios"] = len(sized_scases)
+    sstats["run_s"] = round(time.time() - t0, 1)
+    ctx.stats["data_sizes"] = sstats
+    if not sized_cases or not pre_cases:
+        ctx.proof_problems.append("no data-size scenario was generated (no integer literal found in the writer modules)")
+    for c in cases + scases + sized_cases + pre_cases + sized_scases:
         if c.error:
             report_unbounded(ctx, c)
-    cases = [c for c in cases if not c.error]
-    scases = [c for c in scases if not c.error]
+    n_base = len([c for c in cases if not c.error])
+    cases = [c for c in cases + sized_cases if not c.error]
+    scases = [c for c in scases + sized_scases if not c.error]
+    pre_cases = [c for c in pre_cases if not c.error]
     allc = cases + scases
     if len(allc) < 2:
         ctx.proof_problems.append("no scenario completed")
@@ -822,9 +863,10 @@ def run(ctx) -> None:
 
     # ---- implementation-only oracle: every prefix of every observed trace
     t0 = time.time()
-    for c in allc:
+    for c in allc + pre_cases:
         viol = oracle_case(ctx, c, nsched=2 if quick else 6)
         report_violations(ctx, c, viol, None)
+        tail_check(ctx, c, bool(viol))
     ctx.stats["oracle_s"] = round(time.time() - t0, 1)
 
     # ---- fault class: OSError at EVERY durability call (temp creation, write, descriptor for fsync, fsync,
@@ -900,6 +942,12 @@ def replay(ctx, payload) -> int:
     sched = {int(k): [tuple(b) for b in v] for k, v in (case.get("schedule") or {}).items()} or None
     viol, _ = powerloss.sweep(c.raw, c.root, c.reader, schedule=sched)
     viol += [{"prefix": a["prefix"], "outcome": "drop_all", "problems": [dict(a, problem="acknowledged commit not durable")]} for a in ack_check(c)]
+    if "unsynced_tail" in case:
+        locks = os.path.join(c.root, ".locks") + os.sep
+        bad = c16_sizes.unsynced_tails([ev for ev in c.raw if not str(ev.get("path", "")).startswith(locks)])
+        if bad:
+            print(f"replay: STILL FAILS: renamed with bytes written after the last fsync: {bad[0]}")
+            return 1
     want = case.get("prefix")
     hit = [v for v in viol if v["prefix"] == want] or viol
     if hit:
